@@ -445,3 +445,14 @@ def mark_index(path, name):
         if e.kind == "marker" and e.data.get("name") == name:
             return i
     return len(path.events)
+
+
+def atoms_of_cond(c: Cond):
+    t = c.t
+    if t[0] == "cmp":
+        return list(atoms_of(t[2]).values())
+    if t[0] in ("and", "or"):
+        return atoms_of_cond(t[1]) + atoms_of_cond(t[2])
+    if t[0] in ("not", "all", "any"):
+        return atoms_of_cond(t[1])
+    return []
